@@ -852,8 +852,9 @@ def observe(batches, seeds, legacy_seeds):
 def tlc_programs(run, res):
     """Order.tla with the table the property states (every site sorted):
     OrderIndependence must hold; exports the program table."""
-    run.add_tlc(res, "Order: every site sorted with the total relation; OrderIndependence over all permutations of <= 4 of 5 "
-                     "elements (2 plain, 3 that render alike)")
+    run.add_tlc(res, "Order: every site sorted, total relation, exact strings; OrderIndependence over all permutations of <= 4 "
+                     "of the elements of " + res.cfg + " (near-duplicate strings, which are plain elements under this table, "
+                     "3 that render alike; thorough: 2 plain ones more)")
     progs = res.records("PROGS")
     if not progs:
         raise MachineryError("Order.tla exported no program table")
@@ -1088,7 +1089,8 @@ def call_groups(rng, quick, funcs):
     other orders and the legacy mode on a few."""
     groups = []
     for pool in CALL_POOLS:
-        b = make_batch("calls-" + pool, [], pool, rng, 3 if quick else 6, n=6)
+        # the hash of a decimal does not follow the seed: more construction orders for that pool, all seven members
+        b = make_batch("calls-" + pool, [], pool, rng, 6 if pool == "decmag" or not quick else 3, n=7 if pool == "decmag" else 6)
         sweep = calls_mod.sweep_calls(funcs, max_args={"str": 3, "summix": 2, "decmag": 1}[pool])
         directed = directed_calls(pool)
         cl = [(cid, src) for cid, src, _ in sweep] + [(cid, src) for cid, src, _, _ in directed]
@@ -1097,6 +1099,7 @@ def call_groups(rng, quick, funcs):
             runs = [(names[0], sd, False) for sd in range(8)]
             runs += [(on, 2 + 3 * i, False) for i, on in enumerate(names[1:])]
             runs += [(names[0], 1, True), (names[1], 6, True)] if pool == "str" else [(names[1], 6, True)]
+            runs = sorted(set(runs))
         else:
             runs = [(names[0], sd, False) for sd in range(32)]
             runs += [(on, 4 * i + j, False) for i, on in enumerate(names[1:]) for j in range(4)]
@@ -1188,6 +1191,7 @@ def judge_calls(run, groups, results):
                     f"PYTHONHASHSEED={x[1][0][1]} -> {_short_call(x[0])} but order={y[1][0][0]} PYTHONHASHSEED={y[1][0][1]} "
                     f"-> {_short_call(y[0])}" + (f"; {len(cids) - 1} more calls ({name}) vary" if len(cids) > 1 else ""))
             case = {"kind": "call", "pool": g["pool"], "cid": cid, "src": src_of.get(cid, ""), "fresh": g["fresh"], "elems": g["batch"].elems,
+                    "function": g["fname"].get(cid),
                     "prelude": g["prelude"], "directed": list(g["directed"].get(cid, ())),
                     "runs": [{"order": x[1][0][0], "seed": x[1][0][1], "legacy": legacy},
                              {"order": y[1][0][0], "seed": y[1][0][1], "legacy": legacy}]}
@@ -1413,7 +1417,9 @@ def run(run):
     run.cov["sites"] = table
     run.cov["prediction_agreement"] = {"programs": len(seen_by_prog), "agree": agree}
     run.cov["bounds"] = {"hash_seeds": len(seeds), "legacy_hash_seeds": len(legacy_seeds),
-                         "construction_orders": norders, "scripts": len(batches), "repetitions": reps}
+                         "construction_orders": norders, "scripts": len(batches), "repetitions": reps,
+                         "call_channel_runs": {g["pool"]: [list(r) for r in g["runs"]] for g in cgroups},
+                         "call_channel_calls": {g["pool"]: len(g["calls"]) for g in cgroups}}
     run.assumptions += [
         "observation = the text a template printed (results and error messages are rendered into it); for the "
         "template that ended the process also stderr and the exit status of ckl.run",
@@ -1451,7 +1457,7 @@ def replay_call(run, case):
     g = {"gid": "replay", "pool": pool, "batch": b, "prelude": case["prelude"], "fresh": case["fresh"],
          "calls": [(case["cid"], case["src"])],
          "runs": [(on, sd, lg) for on in case["prelude"] for sd in seeds for lg in ([False, True] if legacy else [False])],
-         "limit": 10, "fname": {}, "directed": directed}
+         "limit": 10, "fname": {case["cid"]: case["function"]} if case.get("function") else {}, "directed": directed}
     results, nproc = calls_mod.execute([g], 16)
     flagged, extra, stats = judge_calls(run, [g], results)
     bad = validate_traces(run, [ex[0] for ex in extra]) if extra else {}
